@@ -44,6 +44,9 @@ def design_results(pid, tier, plan):
     os.makedirs(cache_dir, exist_ok=True)
     h = spec_hash(None)
     for mc in plan.get("mc", []):
+        mc = dict(mc)
+        if tier == "thorough" and mc.get("cfg_thorough"):
+            mc["cfg"] = mc["cfg_thorough"]
         name = mc["module"] + ("/" + mc["cfg"] if mc.get("cfg") else "")
         cp = os.path.join(cache_dir, "%s_%s_%s.json" % (mc["module"], mc.get("cfg", ""), h))
         r = None
@@ -371,3 +374,8 @@ PLANS["C10"] = {
             "is bound and empty, activations refer to levels on the stack, every other leaf is implied by the current assertions (no model of "
             "assertions and negated leaf among the candidates); non-trivial = a proof was printed and read",
 }
+
+MC_SCRIPT = {"module": "MC_Script", "cfg": "MC_Script", "cfg_thorough": "MC_Script_deep", "timeout": 1500}
+for _p in ("C01", "C02", "C03", "C04", "C05", "C06", "C07", "C19", "C21", "C29"):
+    PLANS[_p].setdefault("mc", []).append(MC_SCRIPT)
+PLANS["C20"].setdefault("mc", []).append({"module": "MC_PipeReader", "timeout": 900})
